@@ -63,6 +63,75 @@ func liveProfile() Profile {
 	return p
 }
 
+func init() {
+	register(&Spec{
+		ID: "C18",
+		Profile: func(tier string) Profile {
+			p := unbondProfile()
+			p.Name = "genesis-twin"
+			p.Weights[KRedelegate] = 16
+			p.Weights[KUpdate] = 3
+			p.Weights[KClaim] = 5
+			p.Weights[GExportAtBoundary] = 6
+			p.ChRates = []string{"1", "0.5", "0.99"}
+			p.Delays = []int64{0, 0, sec, 7 * day}
+			p.MaxSteps = 30
+			return tierSteps(p, tier)
+		},
+		Oracles: func() []Oracle { return []Oracle{OracleC18{}} },
+		NonTrivial: func(x *Exec) bool {
+			return x.Has("c18:rich-export") && x.Has("c18:continuation-with-slash-or-block")
+		},
+		Rule: "stateful rapid histories ('unbond' profile with redelegations, weight changes and claims) that fork at a block boundary: on the twin branch every alliance key is deleted and the module re-initialised from ExportGenesis; oracle = the twin's export byte-equals the original's, the continuation (drawn from the full alphabet) runs in lock-step on both and after every step result class/error and every observable (assets, validators incl. the module's staking delegations, delegations with reward histories, unbondings, redelegations, params, all balances, supply) must agree, and a systematic probe continuation (slash every validator, two blocks past every completion) on forks of both must agree; non-trivial = exported state has a shared unbonding bucket, >=2 redelegations or a weight snapshot, and the continuation contains a slash or a block; distinct = distinct concrete op list",
+	})
+}
+
+func govProfile() Profile {
+	p := baseProfile()
+	p.Name = "governance"
+	p.Weights = map[string]int{KCreate: 14, KUpdate: 22, KDelete: 10, KParams: 10, KDelegate: 14, KUndelegate: 6, KRedelegate: 3, KBlock: 16, KClaim: 2, KSlashHook: 1}
+	p.GovFuzz = true
+	p.InvalidPct = 15
+	p.Delays = []int64{0, 0, sec, 7 * day}
+	p.ChRates = []string{"1", "0.5", "0.99", "1.01"}
+	p.HugeAmounts = false
+	return p
+}
+
+func init() {
+	register(&Spec{
+		ID:      "C16",
+		Profile: func(tier string) Profile { return tierSteps(govProfile(), tier) },
+		Oracles: func() []Oracle { return []Oracle{&OracleC16{}} },
+		NonTrivial: func(x *Exec) bool {
+			return x.Has("c16:accepted-on-staked-decaying-or-warm-up-asset") || x.Has("c16:rejected-by-exactly-one-field")
+		},
+		Rule: "stateful rapid histories, 'governance' profile: the four governance messages and the three legacy proposal contents with every field drawn from {nil, negative, 0, boundary, 1e30, min/max durations}, signer in {authority, other valid address, module account, malformed, empty}, on assets that are empty / staked / decaying / in warm-up, mixed with staking ops and decay blocks; oracle = success implies every requirement of the statement (independent predicate over the request and the pre-state), update preserves the four protected fields and stores the requested ones, delete only when empty, create once with start = block time + delay, rejected or panicking messages leave the module store byte-identical, every stored asset valid after every step; non-trivial = an accepted update on a staked / decaying / warm-up asset, or a rejection of a request violating exactly one requirement; distinct = distinct concrete op list",
+	})
+	register(&Spec{
+		ID: "C19",
+		Profile: func(tier string) Profile {
+			p := baseProfile()
+			p.Name = "determinism"
+			p.NAssetsMin = 3
+			p.Delays = []int64{0, 0, 0, sec}
+			p.ChRates = []string{"0.5", "0.99", "1"}
+			p.ChInts = []int64{sec, sec, 300 * sec}
+			p.FocusDelPct = 50
+			p.FocusValPct = 60
+			p.MaxSteps = 30
+			p.Weights[KBlock] = 30
+			p.Weights[KClaim] = 10
+			return tierSteps(p, tier)
+		},
+		Oracles: func() []Oracle { return []Oracle{OracleC19{}} },
+		NonTrivial: func(x *Exec) bool {
+			return x.Has("c19:>=3-assets-on-one-validator-with-deposit") || x.Has("c14:several-assets-decay-in-one-block") || x.Has("weight-decayed") && x.Has("ok:"+KClaim)
+		},
+		Rule: "stateful rapid histories (core profile forced to 3 assets, decay on); each generated history is re-executed 3 more times on sibling branches of the same base state within the process; raw KV digests of the alliance, bank, staking and distribution stores, every op result and every event list must be identical (Go randomises map iteration per range statement); non-trivial = >=3 assets staked on one validator that received a reward deposit, or weights decayed and rewards were claimed; distinct = distinct concrete op list",
+	})
+}
+
 func rewardsProfile() Profile {
 	p := baseProfile()
 	p.Name = "rewards"
